@@ -221,6 +221,12 @@ func ruleGlobalIn(c *Ctx, pkgRel string) *RuleResult {
 		for i := 0; i < fn.Signature.Results().Len(); i++ {
 			for k, path := range E.RetReach(fn, i) {
 				if k >= rGlobal && k < rFresh {
+					// a sentinel error of another package (io.EOF, io.ErrUnexpectedEOF): immutable by convention,
+					// shared by every program that imports the package
+					if g := E.globals[k-rGlobal]; g.Pkg != nil && !strings.HasPrefix(g.Pkg.Pkg.Path(), c.Mod) && types.Identical(fn.Signature.Results().At(i).Type(), errType) {
+						r.note("%s returns the sentinel error %s.%s", c.short(fn), g.Pkg.Pkg.Name(), g.Name())
+						continue
+					}
 					bad++
 					r.find(c.short(fn)+":returns "+E.rootName(fn, k), c.pos(fn.Pos()), "%s returns memory of package-level %s (%s)", c.short(fn), E.rootName(fn, k), path)
 				}
